@@ -29,7 +29,9 @@ Catalogues (all enumerated completely, nothing sampled)
                          alone reaches 508 bytes (and the short lengths 1..3) x 6 descriptions x interface lists
   sub-check `datagrams`: 6 identities (complete, truncated ASCII / multi-byte / escaped, identity too long, description of
                          control characters) x interface lists x start-up broadcast on/off x every datagram sequence of
-                         length <= 2 (quick) / 3 (thorough) over the 29 datagram kinds of DATAGRAMS (7 of them
+                         length <= 2 (quick) / 3 (thorough) over the 34 datagram kinds of DATAGRAMS (3 requests spelled
+                         with JSON escapes in key / value / every character - what counts is the decoded value -, a
+                         request behind a BOM and one with a duplicate key (may be answered); 7 of them
                          longer than the 1024 byte receive buffer: 2 000 / 20 000 nested lists, 4 000 nested objects,
                          5 000 digit number, huge exponent, 65 507 bytes of ASCII / binary garbage); every sequence is
                          followed by one more plain discovery request (the liveness probe)
@@ -51,12 +53,18 @@ Catalogues (all enumerated completely, nothing sampled)
                          running server, until closed / shut down.  While the node is up a discovery request is broadcast
                          (it reaches EVERY socket still bound to the discovery port), then the environment calls
                          dispatcher.restart() (= Server.restart; last run: Server.shutdown()), and after run() has
-                         returned one more request is broadcast.
+                         returned one more request is broadcast.  The fake UDP socket behaves as measured on a real
+                         unconnected Linux UDP socket: shutdown() fails with ENOTCONN but wakes a blocked recvfrom,
+                         which then returns (b'', None); the socket stays BOUND until close().  The fake network
+                         delivers a broadcast to every bound socket and a unicast request (one per run, own sender
+                         address) to exactly ONE of the sockets bound to the port - which one is a choice point: every
+                         choice is executed (only one exists unless a socket of an earlier run is still bound).
                          Oracle: in run k only the listener created in run k sends; every port it names is one on which
                          the node accepts connections AT THAT MOMENT (a fake tcp socket bound + listening + not closed
                          whose server is inside its accept loop - a registered interface whose serve_forever already
-                         failed is not listening); the request is answered once per such port; after the end nothing is
-                         sent at all.  Signatures separate the listener of the current run
+                         failed is not listening); broadcast and unicast request are each answered once per such port;
+                         no socket of an earlier run is still bound while the node is up, none after the end; after the
+                         end nothing is sent at all.  Signatures separate the listener of the current run
                          (`C19:restart:{announce,answer}:...:{first-run,after-restart}`) from a listener of a previous
                          run that still answers (`C19:restart:listener-of-a-previous-run-still-answers:...`).
   interface lists: one tcp; tcp + ws; two tcp; port 1; port 65535; port 1 + 65535; four-digit port; ws only (no tcp)
@@ -424,7 +432,8 @@ def judge_run(part, case, eid, desc, ports, sock, exc, names, sigtag):
             if cannot_send:
                 pass                      # disabled because the identity does not fit: accepted
             elif must_enable:
-                part.violation(f'C19:answer:request-not-answered-although-the-identity-fits:{idclass}', case,
+                spelling = '' if dclass == 'request' else f':{dclass}'
+                part.violation(f'C19:answer:request-not-answered-although-the-identity-fits{spelling}:{idclass}', case,
                                f'{what}: datagram #{i + 1} ({name}) was not answered; identity alone needs '
                                f'{minlen(eid, "", 5)} <= 508 bytes (complete message {minlen(eid, desc, 5)})')
             # else: latitude (fits only with a shorter port)
@@ -1334,7 +1343,8 @@ def run(ctx):
         f'restart = real Server.run over <= {b["restart_runs"]} iterations (Server.restart between them): 7 first configurations x '
         '{same, 2 changed} interface lists per later run x every subset of interfaces whose port cannot be bound in every run x '
         f'{len(VARIANTS)} bind variants (EADDRINUSE 0..4 times before success; EADDRINUSE for ever / EACCES) x 2 thread orders, real '
-        'TCPServer constructor on a fake TCP socket layer, a broadcast request in every run and one after the end, listener and '
+        'TCPServer constructor on a fake TCP socket layer, a broadcast and a unicast request (every choice of the bound socket that '
+        'gets it) in every run and a broadcast after the end, listener and '
         'interface threads parked in recvfrom / the accept loop until closed. '
         'evaluations = executions of constructor + loop; distinct_nontrivial = executions in which the description must be cut / '
         'the identity does not fit / a non-request datagram is in the sequence / an interface fails; states = distinct cases; '
